@@ -15,6 +15,7 @@ E1_NOTE = "Trusted: the harness's reference model and canonical key (DESIGN.md a
 NOT_APPLICABLE = {}
 
 ENGINES = [
+    {'name': 'confx', 'path': 'lib/c18_headers.py', 'serves_properties': ['C18', 'C20'], 'kind_free_text': 'complete enumeration of finite configuration / program families (header sets x TU layouts x library kinds; entry point x argument position x object state x copy kind) with a compile/link or exit-status oracle'},
     {'name': 'inputx', 'path': 'worlds/sort_world.c', 'serves_properties': ['C11', 'C17'], 'kind_free_text': 'complete enumeration of bounded input spaces (arrays, keys, table sizes, environment answers) against direct oracles'},
     {'name': 'faultx', 'path': 'worlds/fault_world.c', 'serves_properties': ['C16'], 'kind_free_text': 'exhaustive allocation-fault enumeration over scripted histories (ld --wrap on malloc/calloc/realloc/free), reference model per step, leak audit'},
     {'name': 'schedx', 'path': 'engine/sched.c', 'serves_properties': ['C06'], 'kind_free_text': 'controlled scheduler: ucontext coroutines, the -fsanitize=thread compiler ABI implemented by the harness so that every shared-memory access of the unmodified library is a scheduling point; stateless DFS over all interleavings with visited-state pruning'},
@@ -207,5 +208,15 @@ PROPS = {
         'rule': 'one evaluation = one call of a built-in hash function checked against m, or one (table state, entry point, call ordinal, bad value) case; non-trivial = distinct keys / table sizes enumerated and bad-hash cases in which the bad value was actually returned',
         'assumptions': ['x86-64 SSE single-precision arithmetic (FLT_EVAL_METHOD 0), gcc 12'],
         'deadline': {'quick': 300, 'thorough': 3000},
+    },
+    'C18': {
+        'level': 'exploration',
+        'engine': 'confx',
+        'claim': 'Complete enumeration of the configuration family: the library is built by the project\'s own Makefile from a scratch copy of the current tree; every public header alone, every ordered pair and all twelve together in two orders (146 header sets), each as a one-translation-unit and a two-translation-unit C99 program whose every TU uses a type, an inline function and an external function of every included header, compiled with the project\'s warning flags and linked against libcstl.a and against libcstl.so (584 programs, each also run); plus a client generated from gcc -aux-info that takes the address of every function the headers declare, linked against both library kinds.',
+        'note': 'Oracle = exit status of compiler, linker and program (multiple definition, undefined reference, incomplete type, ...). Triples of headers are not enumerated (pairs + all-together cover ordering and guard interactions pairwise). The usage snippets per header are part of the harness; a new public header without a snippet is reported in the evidence.',
+        'technique': 'exhaustive enumeration of header sets x translation-unit layouts x library kinds with a compile/link/run oracle',
+        'jobs': [{'world': 'c18', 'script': 'lib/c18_headers.py', 'flavours': {'quick': ['rel'], 'thorough': ['rel']}}],
+        'rule': 'one evaluation = one client program built and run; all enumerated programs are distinct; non-trivial = all of them (plus the number of declared functions in the address-of-everything clients)',
+        'assumptions': ['gcc 12 and GNU ld as the client toolchain', 'the project Makefile\'s build target defines what "the built library" is'],
     },
 }
